@@ -215,8 +215,12 @@ func runC08(p *Program, r *Report) {
 		r.Check(m[mpd] || len(helper) > 0, "R-C08-1", name+"/root", p.Pos(f.Pos()), "under "+mpd, "the upload is not located under "+mpd)
 	}
 
-	// R-C08-2
-	for _, name := range []string{posixP + "CompleteMultipartUpload"} {
+	// R-C08-2 (the scoutfs backend has its own completion: sibling cross-check)
+	completes := []string{posixP + "CompleteMultipartUpload"}
+	if p.SSAPkg["backend/scoutfs"] != nil {
+		completes = append(completes, "(*backend/scoutfs.ScoutFS).CompleteMultipartUpload")
+	}
+	for _, name := range completes {
 		f := p.Func(name)
 		var opens []ssa.CallInstruction
 		for _, c := range callsIn(f) {
@@ -347,7 +351,7 @@ func runC08(p *Program, r *Report) {
 	r.Check(okLen, "R-C08-2", "backend.GetMultipartMD5/suffix<-len(parts)", p.Pos(gm.Pos()), "ETag suffix is the number of parts", "the multipart ETag suffix is not the number of listed parts")
 
 	// R-C08-3
-	for _, name := range []string{posixP + "CompleteMultipartUpload", posixP + "AbortMultipartUpload"} {
+	for _, name := range append(append([]string{}, completes...), posixP+"AbortMultipartUpload") {
 		f := p.Func(name)
 		n := 0
 		for _, c := range callsTo(f, "os.RemoveAll") {
@@ -373,20 +377,22 @@ func runC08(p *Program, r *Report) {
 	}
 
 	// R-C08-4
-	cf := p.Func(posixP + "CompleteMultipartUpload")
-	n := 0
-	for _, c := range callsTo(cf, "os.Open") {
-		n++
-		okP := false
-		for _, rt := range Origins(callArgs(c)[0], nil) {
-			if rt.Kind == "field" && rt.Desc == "PartNumber" {
-				okP = true
+	for _, name := range completes {
+		cf := p.Func(name)
+		n := 0
+		for _, c := range callsTo(cf, "os.Open") {
+			n++
+			okP := false
+			for _, rt := range Origins(callArgs(c)[0], nil) {
+				if rt.Kind == "field" && rt.Desc == "PartNumber" {
+					okP = true
+				}
 			}
+			r.Check(okP, "R-C08-4", fnName(cf)+"/os.Open#"+itoa(n)+":by-part-number", p.Pos(c.Pos()), "part file chosen by the listed PartNumber", "the part file that is copied is not chosen by the listed part's PartNumber: completing with a subset or sparse numbering assembles the wrong parts while the ETag describes the listed ones")
 		}
-		r.Check(okP, "R-C08-4", fnName(cf)+"/os.Open#"+itoa(n)+":by-part-number", p.Pos(c.Pos()), "part file chosen by the listed PartNumber", "the part file that is copied is not chosen by the listed part's PartNumber: completing with a subset or sparse numbering assembles the wrong parts while the ETag describes the listed ones")
-	}
-	if n == 0 {
-		r.Viol("R-C08-4", fnName(cf)+"/os.Open", p.Pos(cf.Pos()), "no part file is opened (anchor drift)")
+		if n == 0 {
+			r.Viol("R-C08-4", fnName(cf)+"/os.Open", p.Pos(cf.Pos()), "no part file is opened (anchor drift)")
+		}
 	}
 }
 
